@@ -86,11 +86,16 @@ pub open spec fn sint_ok(l: Lang, bits: int, o: Seq<char>) -> bool {
         Lang::Go => (bits <= 8 && o == "int8"@) || (bits <= 16 && o == "int16"@) || (bits <= 32 && (o == "int32"@ || o == "int"@)) || o == "int64"@,
     }
 }
+/// KNOWN FINDING kf-c05-scala-unsigned-width (recorded; pinned by two snapshots): Scala has no unsigned integers; typeshare writes the names below and
+/// defines them as aliases of Byte / Short / Int / Int - none can hold every value of the Rust type. The contract accepts the NAMES and is silent about
+/// their width; a signed type that is wide enough (the first disjunct of uint_ok) is what the property asks for
+pub open spec fn kf_scala_unsigned(bits: int, o: Seq<char>) -> bool { (bits <= 8 && o == "UByte"@) || (bits <= 16 && o == "UShort"@) || (bits <= 32 && o == "UInt"@) || o == "ULong"@ }
 /// unsigned integer types with at least `bits` bits, or signed ones with more than `bits` bits
 pub open spec fn uint_ok(l: Lang, bits: int, o: Seq<char>) -> bool {
     sint_ok(l, bits + 1, o) || match l {
         Lang::TypeScript | Lang::Python => false,
-        Lang::Kotlin | Lang::Scala => (bits <= 8 && o == "UByte"@) || (bits <= 16 && o == "UShort"@) || (bits <= 32 && o == "UInt"@) || o == "ULong"@,
+        Lang::Kotlin => (bits <= 8 && o == "UByte"@) || (bits <= 16 && o == "UShort"@) || (bits <= 32 && o == "UInt"@) || o == "ULong"@,
+        Lang::Scala => kf_scala_unsigned(bits, o),
         Lang::Swift => (bits <= 8 && o == "UInt8"@) || (bits <= 16 && o == "UInt16"@) || (bits <= 32 && (o == "UInt32"@ || o == "UInt"@)) || o == "UInt64"@,
         Lang::Go => (bits <= 8 && (o == "uint8"@ || o == "byte"@)) || (bits <= 16 && o == "uint16"@) || (bits <= 32 && (o == "uint32"@ || o == "uint"@)) || o == "uint64"@,
     }
@@ -109,10 +114,12 @@ pub open spec fn bool_ok(l: Lang, o: Seq<char>) -> bool {
 pub open spec fn string_ok(l: Lang, o: Seq<char>) -> bool {
     match l { Lang::TypeScript => o == "string"@, Lang::Kotlin | Lang::Scala | Lang::Swift => o == "String"@, Lang::Go => o == "string"@, Lang::Python => o == "str"@ }
 }
-/// a Rust char is one Unicode scalar: JSON string; 16-bit Char types cannot hold every value
-pub open spec fn char_ok(l: Lang, o: Seq<char>) -> bool {
-    string_ok(l, o) || (l is Swift && (o == "Unicode.Scalar"@ || o == "Character"@)) || (l is Go && (o == "rune"@ || o == "int32"@))
-}
+/// KNOWN FINDING kf-c05-char-not-a-json-string (recorded; pinned by the snapshot test_generate_char): serde writes a Rust char as a JSON string of one
+/// scalar; Go translates it to `rune` (an integer: a JSON number) and Swift to `Unicode.Scalar` (not Codable). The contract is silent exactly on these
+/// two spellings - an earlier version of this specification simply listed them as acceptable, which was the code's view, not the property's
+pub open spec fn kf_char(l: Lang, o: Seq<char>) -> bool { (l is Swift && o == "Unicode.Scalar"@) || (l is Go && o == "rune"@) }
+/// a Rust char is one Unicode scalar: a JSON string; 16-bit Char types cannot hold every value
+pub open spec fn char_ok(l: Lang, o: Seq<char>) -> bool { string_ok(l, o) || kf_char(l, o) }
 pub open spec fn unit_ok(l: Lang, o: Seq<char>) -> bool {
     match l {
         Lang::TypeScript => o == "undefined"@ || o == "null"@ || o == "void"@,
